@@ -297,6 +297,31 @@ Fixpoint bind_params (ps : list param) (vs : list Z) : M unit :=
       end
   end.
 
+(* all index tuples of an array shape, row-major ([[]] for a scalar) *)
+Fixpoint upto (n : nat) : list Z :=
+  match n with O => [] | S k => upto k ++ [Z.of_nat k] end.
+Fixpoint all_idx (dims : list nat) : list (list Z) :=
+  match dims with
+  | [] => [[]]
+  | d :: ds => flat_map (fun i => map (cons i) (all_idx ds)) (upto d)
+  end.
+(* whole-struct copy = every cell of every member is read from the source and stored into the target *)
+Fixpoint copy_cells (dst src : ident) (idxs : list (list Z)) : M unit :=
+  match idxs with
+  | [] => ret tt
+  | i :: r => v <- m_read src i ;; m_write dst i v ;;; copy_cells dst src r
+  end.
+Fixpoint copy_members (x y : ident) (j : nat) (flds : list fld) : M unit :=
+  match flds with
+  | [] => ret tt
+  | f :: r => copy_cells (mkey x j) (mkey y j) (all_idx (fdims f)) ;;; copy_members x y (S j) r
+  end.
+Fixpoint decl_members (x : ident) (j : nat) (flds : list fld) : M unit :=
+  match flds with
+  | [] => ret tt
+  | f :: r => m_declare false false (fty f) (mkey x j) (fdims f) [] ;;; decl_members x (S j) r
+  end.
+
 Definition lval_target (lv : lval) : M (ident * list Z) :=
   match lv with
   | LVar x => ret (x, [])
@@ -394,6 +419,8 @@ with exec (n : nat) (st : stmt) {struct n} : M unit :=
     | SReturn (Some e) => v <- eval k e ;; lift (Ret (Some v))
     | SBlock ss => in_block (exec k) ss
     | SPrint nl args => print_args (eval k) true args ;;; if nl then m_out ONl else ret tt
+    | SStruct _ x flds => decl_members x 0 flds
+    | SCopy x y flds => copy_members x y 0 flds
     end
   end.
 End Eval.
